@@ -15,7 +15,10 @@ RULE = ('credentials: every mapping tree with <=c container nodes over keys '
         'over {a,b} plus paths through a never-present key; right sides: '
         'literals x,1,1.5,True,None,[\'x\'] and placeholders %(t)s, %(t)s-x '
         'with targets {t: scalar} or no t; every (tree, check, target) decided '
-        'by Enforcer.enforce and by the frontier-walk reference model. '
+        'by Enforcer.enforce and by the frontier-walk reference model; plus '
+        'all literal spellings that are equal as values but differ in type '
+        '(1/True/1.0, 0/False/0.0/-0.0) decided by one process in every '
+        'rotation of their order. '
         'case = (check, target, tree); non-trivial = tree with >=2 containers.')
 ASSUMPTIONS = ['exhaustive small trees replace the random nested structures '
                'of the quantifier',
@@ -68,6 +71,7 @@ def plan(tier, seed):
     n = len(checks())
     jobs = [{'space': 'trees', 'check': i, 'tier': tier, 'weight': 10}
             for i in range(n)]
+    jobs.append({'space': 'literals-together', 'tier': tier, 'weight': 50})
     if BOUNDS[tier].get('extra_leaves'):
         jobs += [{'space': 'trees-extra', 'check': i, 'tier': tier,
                   'weight': 3} for i in range(n)]
@@ -80,8 +84,10 @@ _trees = {}
 def run(job, seed):
     acc = core.Acc()
     enf = world.bare_enforcer()
-    left, right, targets = checks()[job['check']]
     space = job['space']
+    if space == 'literals-together':
+        return run_literals(acc, enf)
+    left, right, targets = checks()[job['check']]
     if space == 'trees':
         T = _trees.setdefault('std', Trees())
         cmax = BOUNDS[job['tier']]['containers']
@@ -123,6 +129,53 @@ def run(job, seed):
     if n != (T.count_mappings_upto(cmax)):
         raise core.HarnessError('tree count %d != recurrence' % n)
     acc.sample(space, {'check': text, 'creds': tree})
+    return acc.result()
+
+
+ALL_LITERALS = ["'x'", '"x"', "''", '1', 'True', '1.0', '-1', '1.5', '0',
+                'False', '0.0', '-0.0', 'None', "'1'", "'True'", '2', '2.0',
+                "'None'", '+1']
+
+
+def run_literals(acc, enf):
+    """Literal left sides that are equal as Python values but differ in type
+    or spelling (1, True, 1.0 / 0, False, 0.0, -0.0), all decided by ONE
+    process, in every rotation of the order, so that state shared between
+    checks (a memo keyed on the value, say) shows."""
+    rights = ['x', '', '1', 'True', '1.0', '-1', '1.5', '0', 'False', '0.0',
+              '-0.0', 'None', '2', '2.0']
+    n = len(ALL_LITERALS)
+    for rot in range(n):
+        order = ALL_LITERALS[rot:] + ALL_LITERALS[:rot]
+        if rot % 2:
+            order.reverse()
+        for left in order:
+            for right in rights:
+                for form, target in ((right, {}), ('%(t)s', {'t': right})):
+                    if form == '':
+                        continue
+                    text = '%s:%s' % (left, form)
+                    world.set_rules(enf, {'p': text})
+                    exp = rleaf.generic_allows(left, form, target, {})
+                    if exp is None:
+                        raise core.HarnessError('unclassified %r' % left)
+                    acc.ev()
+                    got = world.decide(enf, 'p', target, {})
+                    if got != ('ok', exp):
+                        acc.violation(
+                            'literals-together|%s' % (
+                                'allows' if got == ('ok', True) else 'denies'
+                                if got[0] == 'ok' else got[1]),
+                            '%s with target %r decides %r after the literals '
+                            '%r were evaluated by the same process; '
+                            'reference %r' % (text, target, got,
+                                              order[:order.index(left)][-3:],
+                                              exp),
+                            {'check': text, 'creds': {}, 'target': target,
+                             'order': order}, exp, got, 'literals-together')
+                    acc.outcome('allow' if exp else 'deny')
+            acc.case('literals-together', True)
+    acc.sample('literals-together', ALL_LITERALS)
     return acc.result()
 
 
